@@ -101,3 +101,11 @@ Example C02_parse_eq_ref_nonvacuous_dns :
             r_sport r = 51200 /\ r_dport r = 53.
 Proof. exact parse_eq_ref_nonvacuous_dns. Qed.
 Print Assumptions C02_parse_eq_ref_nonvacuous_dns.
+
+Example C02_parse_eq_ref_nonvacuous_tcp6 :
+  known_C02 fx_old ex_tcp6 = None /\ known_C02 fx_new ex_tcp6 = None /\
+  exists r, ref_decode ex_tcp6 = ROk r /\ r_id r = 9 /\ r_ip6 r = Some 14%nat /\ r_tcp r = Some 54%nat /\ r_pay r = 54%nat /\
+            r_sport r = 443 /\ r_dport r = 51201 /\
+  exists f, parse cfg1 (of_bytes ex_tcp6) = Ok f /\ f_host f = Some ([2;17;17;17;17;17], [254;128;0;0;0;0;0;0;0;0;0;0;0;0;0;1]).
+Proof. exact parse_eq_ref_nonvacuous_tcp6. Qed.
+Print Assumptions C02_parse_eq_ref_nonvacuous_tcp6.
